@@ -444,7 +444,7 @@ Theorem sensitivities_any_two_blocks_mat : forall (T : Type) (N : Num T) tx rx n
 Proof. intros T N tx rx ne ng Qtx Qrx Ttx Trx a o H1 H2. exact (sensitivities_block_independent_mat N tx rx ne ng Qtx Qrx Ttx Trx a o H1 H2). Qed.
 
 (* ---- non-vacuity of the statements above (hypotheses satisfiable, values as the real code
-   returns them; the same inputs are replayed on arim in .work/prover_C13_TIE.md) ---- *)
+   returns them; the same inputs are replayed on arim in notes/prover_C13_TIE.md) ---- *)
 From Coq Require Floats QArith.
 From Arim Require Base.NumF Base.NumQ.
 
